@@ -72,6 +72,12 @@ func (cr *checkRun) replay(o *Oblig) replayResult {
 	if o.Fn == "gf2p16.asm" || (strings.HasPrefix(o.Fn, "gf2p16.") && strings.Contains(o.Fn, "ByteSliceLE")) || strings.Contains(o.Name, "lemma:tables") {
 		return cr.replayAsm(o)
 	}
+	if strings.HasPrefix(o.Fn, "rsec16.applyMatrix") || strings.HasPrefix(o.Fn, "rsec16.(Coder).GenerateParity") || strings.HasPrefix(o.Fn, "rsec16.(Coder).applyMatrix") || strings.HasPrefix(o.Fn, "rsec16.calculateParallelParams") {
+		return cr.replayApplyMatrix()
+	}
+	if strings.HasPrefix(o.Fn, "gf2p16.(Matrix).") || strings.HasPrefix(o.Fn, "gf2p16.NewMatrix") || strings.HasPrefix(o.Fn, "gf2p16.NewIdentityMatrix") {
+		return cr.replayMatrix()
+	}
 	if o.fc == nil || o.fc.fn == nil || o.fc.c == nil {
 		return replayResult{}
 	}
@@ -352,4 +358,250 @@ func TestGocvReplayAsm(t *testing.T) {
 	}
 	res.log = "differential test of the real kernels (injected with go test -overlay into gf2p16):\n" + src + "\noutput:\n" + strings.Join(keep, "\n")
 	return res
+}
+
+// injected runs an in-package test (through go test -overlay) and collects its GOCV-REPLAY lines.
+func (cr *checkRun) injected(pkg, file, src, test string) replayResult {
+	out, _ := cr.e.runInjectedTest(pkg, file, src, test, 180*time.Second)
+	res := replayResult{ran: true}
+	var keep []string
+	for _, ln := range strings.Split(out, "\n") {
+		if strings.HasPrefix(ln, "GOCV-REPLAY") {
+			keep = append(keep, ln)
+			if strings.HasPrefix(ln, "GOCV-REPLAY-FAIL") {
+				res.failed = true
+			}
+		}
+	}
+	if len(keep) == 0 {
+		keep = append(keep, truncate(out, 3000))
+	}
+	res.log = "test source injected with `go test -tags verif -overlay` into " + pkg + ":\n" + src + "\noutput:\n" + strings.Join(keep, "\n")
+	return res
+}
+
+// replayApplyMatrix: witness search for the matrix-application obligations. The solver gives no
+// model for them (quantified / nonlinear), so the executable reading of the contract is used
+// as oracle: for a grid of shapes, lengths and goroutine counts every real entry point must
+// produce out[r] word k = xor_j M[r][j]*in[j] word k, and must leave the inputs unchanged.
+func (cr *checkRun) replayApplyMatrix() replayResult {
+	src := `//go:build verif
+
+package rsec16
+
+import (
+	"fmt"
+	"math/rand"
+	"testing"
+
+	"github.com/akalin/gopar/gf2p16"
+)
+
+func TestGocvReplayApplyMatrix(t *testing.T) {
+	rng := rand.New(rand.NewSource(1))
+	for _, inRows := range []int{1, 2, 3, 8, 9, 12} {
+		for _, outRows := range []int{1, 2, 3, 5} {
+			for _, n := range []int{2, 4, 16, 18, 30, 32, 34, 48, 50, 64, 66, 100, 128, 1000} {
+				m := gf2p16.NewMatrixFromFunction(outRows, inRows, func(i, j int) gf2p16.T { return gf2p16.T(rng.Intn(65536)) })
+				in := make([][]byte, inRows)
+				for j := range in {
+					in[j] = make([]byte, n)
+					rng.Read(in[j])
+				}
+				want := make([][]byte, outRows)
+				for r := range want {
+					want[r] = make([]byte, n)
+					for k := 0; k < n/2; k++ {
+						var w gf2p16.T
+						for j := range in {
+							w ^= m.At(r, j).Times(gf2p16.T(in[j][2*k]) | gf2p16.T(in[j][2*k+1])<<8)
+						}
+						want[r][2*k], want[r][2*k+1] = byte(w), byte(w>>8)
+					}
+				}
+				in0 := make([][]byte, inRows)
+				for j := range in {
+					in0[j] = append([]byte{}, in[j]...)
+				}
+				for g := 1; g <= 9; g++ {
+					for _, which := range []string{"applyMatrixParallelData", "applyMatrixParallelOut", "applyMatrixSingle"} {
+						out := make([][]byte, outRows)
+						for r := range out {
+							out[r] = make([]byte, n)
+						}
+						switch which {
+						case "applyMatrixParallelData":
+							applyMatrixParallelData(m, in, out, g)
+						case "applyMatrixParallelOut":
+							applyMatrixParallelOut(m, in, out, g)
+						default:
+							applyMatrixSingle(m, in, out)
+						}
+						for r := range out {
+							for b := range out[r] {
+								if out[r][b] != want[r][b] {
+									fmt.Printf("GOCV-REPLAY-FAIL %s: output row %d byte %d is %#x, the row-by-column product gives %#x (input rows=%d, output rows=%d, row length=%d bytes, goroutines=%d)\n", which, r, b, out[r][b], want[r][b], inRows, outRows, n, g)
+									t.Fail()
+									return
+								}
+							}
+						}
+						for j := range in {
+							for b := range in[j] {
+								if in[j][b] != in0[j][b] {
+									fmt.Printf("GOCV-REPLAY-FAIL %s modified input row %d byte %d (rows=%d/%d, len=%d, goroutines=%d)\n", which, j, b, inRows, outRows, n, g)
+									t.Fail()
+									return
+								}
+							}
+						}
+					}
+				}
+			}
+		}
+	}
+	fmt.Println("GOCV-REPLAY-OK applyMatrix*: every shape of the grid agrees with the row-by-column product")
+}
+`
+	return cr.injected("github.com/akalin/gopar/rsec16", "zz_gocv_replay_apply_test.go", src, "TestGocvReplayApplyMatrix")
+}
+
+// replayMatrix: witness search for the Matrix obligations of gf2p16 (row operations, product,
+// constructors, operands unchanged) on small random matrices, against their defining formulas.
+func (cr *checkRun) replayMatrix() replayResult {
+	src := `//go:build verif
+
+package gf2p16
+
+import (
+	"fmt"
+	"math/rand"
+	"testing"
+)
+
+func TestGocvReplayMatrix(t *testing.T) {
+	rng := rand.New(rand.NewSource(1))
+	rnd := func(r, c int) Matrix {
+		return NewMatrixFromFunction(r, c, func(i, j int) T { return T(rng.Intn(65536)) })
+	}
+	fail := func(format string, args ...interface{}) {
+		fmt.Printf("GOCV-REPLAY-FAIL "+format+"\n", args...)
+		t.Fail()
+	}
+	for rows := 1; rows <= 5; rows++ {
+		for cols := 1; cols <= 6; cols++ {
+			m := rnd(rows, cols)
+			for i := 0; i < rows; i++ {
+				for j := 0; j < rows; j++ {
+					c := m.clone()
+					c.swapRows(i, j)
+					for r := 0; r < rows; r++ {
+						src := r
+						if r == i {
+							src = j
+						} else if r == j {
+							src = i
+						}
+						for k := 0; k < cols; k++ {
+							if c.At(r, k) != m.At(src, k) {
+								fail("swapRows(%d,%d) on a %dx%d matrix: entry (%d,%d) is %#x, want %#x", i, j, rows, cols, r, k, c.At(r, k), m.At(src, k))
+								return
+							}
+						}
+					}
+				}
+				cst := T(rng.Intn(65535) + 1)
+				c := m.clone()
+				c.scaleRow(i, cst)
+				for k := 0; k < cols; k++ {
+					if c.At(i, k) != cst.Times(m.At(i, k)) {
+						fail("scaleRow(%d) on a %dx%d matrix: column %d", i, rows, cols, k)
+						return
+					}
+				}
+				for j := 0; j < rows; j++ {
+					if i == j {
+						continue
+					}
+					c := m.clone()
+					c.addScaledRow(i, j, cst)
+					for k := 0; k < cols; k++ {
+						if c.At(i, k) != m.At(i, k)^cst.Times(m.At(j, k)) {
+							fail("addScaledRow(%d,%d) on a %dx%d matrix: column %d", i, j, rows, cols, k)
+							return
+						}
+					}
+				}
+			}
+			for inner := 1; inner <= 4; inner++ {
+				a, b := rnd(rows, inner), rnd(inner, cols)
+				a0, b0 := a.clone(), b.clone()
+				p := a.Times(b)
+				for i := 0; i < rows; i++ {
+					for j := 0; j < cols; j++ {
+						var w T
+						for k := 0; k < inner; k++ {
+							w ^= a.At(i, k).Times(b.At(k, j))
+						}
+						if p.At(i, j) != w {
+							fail("Times of %dx%d by %dx%d: entry (%d,%d) is %#x, row-by-column product gives %#x", rows, inner, inner, cols, i, j, p.At(i, j), w)
+							return
+						}
+					}
+				}
+				for i := range a.elements {
+					if a.elements[i] != a0.elements[i] {
+						fail("Times modified its left operand")
+						return
+					}
+				}
+				for i := range b.elements {
+					if b.elements[i] != b0.elements[i] {
+						fail("Times modified its right operand")
+						return
+					}
+				}
+			}
+		}
+	}
+	// row reduction with row exchanges, square M and wide N: M * result must equal N
+	for n := 1; n <= 4; n++ {
+		for w := 1; w <= 6; w++ {
+			for trial := 0; trial < 30; trial++ {
+				m := rnd(n, n)
+				if trial%2 == 0 && n > 1 {
+					m.elements[0] = 0 // force a zero pivot now and then
+				}
+				nn := rnd(n, w)
+				m0, n0 := m.clone(), nn.clone()
+				res, err := m.RowReduceForInverse(nn)
+				for i := range m.elements {
+					if m.elements[i] != m0.elements[i] {
+						fail("RowReduceForInverse modified M")
+						return
+					}
+				}
+				for i := range nn.elements {
+					if nn.elements[i] != n0.elements[i] {
+						fail("RowReduceForInverse modified N")
+						return
+					}
+				}
+				if err != nil {
+					continue
+				}
+				back := m.Times(res)
+				for i := range back.elements {
+					if back.elements[i] != nn.elements[i] {
+						fail("RowReduceForInverse of a %dx%d M with a %dx%d N: M * result differs from N at element %d", n, n, n, w, i)
+						return
+					}
+				}
+			}
+		}
+	}
+	fmt.Println("GOCV-REPLAY-OK Matrix: row operations, product and row reduction agree with their defining formulas on the grid")
+}
+`
+	return cr.injected("github.com/akalin/gopar/gf2p16", "zz_gocv_replay_matrix_test.go", src, "TestGocvReplayMatrix")
 }
